@@ -251,13 +251,7 @@ func typeCheck(c Case, extra *File) string {
 			return e
 		}
 	}
-	imp := importer.ForCompiler(fset, "gc", func(path string) (io.ReadCloser, error) {
-		p, ok := exports[path]
-		if !ok {
-			return nil, fmt.Errorf("no export data for %s", path)
-		}
-		return os.Open(p)
-	})
+	imp := depImporter()
 	// the package itself (with its in-package tests), then external tests
 	var names []string
 	for n := range byPkg {
@@ -280,6 +274,44 @@ func typeCheck(c Case, extra *File) string {
 		}
 	}
 	return ""
+}
+
+// depImporter returns the process-wide importer for the dependencies of the
+// generated file; imported packages are cached (their positions are never
+// used), so the export data is read once per process.
+var (
+	depImpOnce sync.Once
+	depImp     types.Importer
+)
+
+type cachingImporter struct {
+	base  types.Importer
+	cache map[string]*types.Package
+}
+
+func (c *cachingImporter) Import(path string) (*types.Package, error) {
+	if p, ok := c.cache[path]; ok {
+		return p, nil
+	}
+	p, err := c.base.Import(path)
+	if err == nil {
+		c.cache[path] = p
+	}
+	return p, err
+}
+
+func depImporter() types.Importer {
+	depImpOnce.Do(func() {
+		base := importer.ForCompiler(token.NewFileSet(), "gc", func(path string) (io.ReadCloser, error) {
+			p, ok := exports[path]
+			if !ok {
+				return nil, fmt.Errorf("no export data for %s", path)
+			}
+			return os.Open(p)
+		})
+		depImp = &cachingImporter{base: base, cache: map[string]*types.Package{}}
+	})
+	return depImp
 }
 
 var compileDiagRe = regexp.MustCompile(`(?m)^(?:\./)?` + pkgDirName + `/[^:\s]+:\d+(?::\d+)?: `)
